@@ -43,6 +43,9 @@ Definition p_plane (L : nat) : parser (result (celem (GRS L))) :=
     (tx <- pQ ;; ty <- pQ ;; a <- pK L ;; o <- pQ ;;      (* a tilt-type plane is a Plane: scalar amplitude and opd kwargs *)
      pret (match plane_init (gnz L) (AmpS a) (OpdS o) MNone PixNone None [] with
            | Ok P => Ok (CTilt (TiltAng tx ty) P) | Err e => Err e end))
+  else if k =? 3 then       (* a tilt-type plane given Plane kwargs (mask ...): stored x, y, then the plane *)
+    (tx <- pQ ;; ty <- pQ ;; r <- p_plane0 L 0 ;;
+     pret (match r with Ok P => Ok (CTilt (TiltAng tx ty) P) | Err e => Err e end))
   else if (k =? 0) || (k =? 1) then
     (r <- p_plane0 L k ;; pret (match r with Ok P => Ok (CPlane P) | Err e => Err e end))
   else pfail.
